@@ -59,7 +59,8 @@ func pointRectDistGeodeticRad(φq, λq, φl, λl, φh, λh float64) float64 {
 		cosφa := math.Cos(φa)
 		cosφb := math.Cos(φb)
 
-		return 2 * math.Asin(math.Sqrt(sinΔφ*sinΔφ+sinΔλ*sinΔλ*cosφa*cosφb))
+		// (rounding can push the haversine of two antipodal points above 1)
+		return 2 * math.Asin(math.Min(1, math.Sqrt(sinΔφ*sinΔφ+sinΔλ*sinΔλ*cosφa*cosφb)))
 	}
 
 	// Simple case, point or invalid rect
